@@ -82,7 +82,8 @@ class C13(Prop):
                   "transition table (29 184 transitions compared in Lean), the small-scope exhaustive table of cmd_in_buf/"
                   "first_cmd_in_buf/next_cmd_in_buf (2046 configurations) and the editing/terminator byte sets, and by "
                   "running the real functions and the model on the same streams under exhaustive 2-splits and random "
-                  "k-splits; the Lean oracle judges every real trace (incl. a stall clause for held reads); its "
+                  "k-splits; the Lean oracle judges every real trace (incl. a stall clause for held reads and a clause for "
+                  "lines typed ahead of a get_char() prompt: judgeMode); its "
                   "crash/index/ask/line-length clauses are a theorem on model traces (run_events_safe); telnet framing "
                   "(telnet_lines_delivered) needs only the side condition `no unfinished line longer than the discard "
                   "threshold`; PORT_BINARY framing (binary_bytes_delivered) is unconditional")
@@ -100,13 +101,15 @@ class C13(Prop):
             "empty socket; ports = telnet, ascii, binary, console; interleavings = extraction at the end / after each "
             "read / at random; callbacks = ok / LPC error / destruct at random ordinals; single-char mode switched on at "
             "a random read; get_char()/input_to() (with and without NOECHO) and serve steps at random points, 300..700 raw "
-            "CR LF pairs typed ahead of a get_char (reframe room test at 680..684 pairs).  "
+            "CR LF pairs typed ahead of a get_char (reframe room test at 680..684 pairs); key + NUL + 1..40 complete lines "
+            "typed ahead in ONE read of a pending get_char().  "
             "cases = corpus + known-finding inputs + boundary list + seeded streams (text, CR/LF/NUL mixes, IAC "
             "negotiations, complete/incomplete/oversized sub-negotiations, 8-bit data, lines > 2 KiB) x segmentations "
             "(all 2-splits of short streams, random k-splits, 1-byte reads) x extraction interleavings on telnet, ascii, "
             "binary ports and the console; non-trivial = trace has >= 2 lines; distinct = distinct canonical trace")
-    not_covered = ["single-character mode: delivery granularity is outside the statement (memory safety, mode switches and "
-                   "reframing are covered)",
+    not_covered = ["single-character mode: delivery granularity is outside the statement (memory safety, mode switches, "
+                   "reframing and - by the oracle clause judgeMode - the lines typed ahead of a get_char are covered; the "
+                   "clause is not proved for model traces)",
                    "the `!` shell escape of process_user_command (WAS_SINGLE_CHAR), ed, termios / console get_char",
                    "snooper callbacks made from INSIDE copy_chars through add_message() (echo, telnet replies): they always "
                    "succeed in the harness; a snooper error / destruct there is an unrepaired defect recorded in notes/C13.md",
